@@ -13,6 +13,7 @@ on stdout.
 import copy
 import json
 import os
+import re
 import subprocess
 import sys
 from fractions import Fraction
@@ -86,16 +87,123 @@ class time_limit:
         return False
 
 
+# ------------------------------------------------------------------ input variants (hardening classes 1, 2, 6)
+#
+# The model speaks integers.  A *variant* says in which Python form the same integers reach the real code:
+#   form   lit    the int objects of the spec as they are
+#          fresh  int(str(v)): a new object per use (outside CPython's small-int cache: equal, never identical)
+#          str    "v<int>" built at run time;   tuple  ("t", <int>);   fdef  the default as float(v), choices as ints
+#   cont   container of a choice set: list / tuple / range / one-shot generator, iter(list), map
+#   kw     ArrayBuilder2D arguments: all by keyword / defaults omitted / positional
+#   dis    custom disallow_adjacent as list or tuple of tuples; "four": True spelled out as the four directions
+#   poison after construction the caller's choice list is modified (the builder must have taken a copy)
+# Everything read back from the real code is decoded to integers (dec_prob) before it is compared.
+
+DEFAULT_VARIANT = {"form": "lit", "cont": "list", "kw": "all", "dis": "list", "poison": False}
+_VARIANT = [dict(DEFAULT_VARIANT)]
+_LEAF_RE = re.compile(r"v-?[0-9]+\Z")
+
+
+class variant:
+    def __init__(self, var=None):
+        self.var = dict(DEFAULT_VARIANT)
+        if var:
+            self.var.update(var)
+
+    def __enter__(self):
+        _VARIANT.append(self.var)
+
+    def __exit__(self, *a):
+        _VARIANT.pop()
+        return False
+
+
+def cur_variant():
+    return _VARIANT[-1]
+
+
+def fresh_int(v):
+    return int(str(v))
+
+
+def enc(v, role="c"):
+    """integer of the spec -> the Python value handed to cspuz (role 'd': a default)."""
+    f = _VARIANT[-1]["form"]
+    if f == "lit":
+        return v
+    if f == "fresh":
+        return fresh_int(v)
+    if f == "str":
+        return "v%d" % v
+    if f == "tuple":
+        return ("t", fresh_int(v))
+    if f == "fdef":
+        return float(v) if role == "d" else fresh_int(v)
+    raise ValueError(f)
+
+
+def is_leaf_tuple(p):
+    return _VARIANT[-1]["form"] == "tuple" and isinstance(p, tuple) and len(p) == 2 and p[0] == "t"
+
+
+def dec_leaf(v):
+    """inverse of enc; anything that is not a value of the current form is returned unchanged (and is then
+    printed as ?type, i.e. shows up as a mismatch)."""
+    f = _VARIANT[-1]["form"]
+    if f == "str":
+        return int(v[1:]) if isinstance(v, str) and _LEAF_RE.match(v) else v
+    if f == "tuple":
+        return v[1] if is_leaf_tuple(v) and type(v[1]) is int else v
+    if f == "fdef":
+        return int(v) if type(v) is float and v == int(v) else v
+    return v
+
+
+def dec_prob(p):
+    if _VARIANT[-1]["form"] in ("lit", "fresh"):
+        return p
+    if is_leaf_tuple(p):
+        return dec_leaf(p)
+    if isinstance(p, list):
+        return [dec_prob(x) for x in p]
+    if isinstance(p, tuple):
+        return tuple(dec_prob(x) for x in p)
+    return dec_leaf(p)
+
+
+def dec_update(u):
+    return [(y, x, dec_leaf(v)) for (y, x, v) in u]
+
+
+def gen_variant(rng, plain=0.35):
+    if rng.random() < plain:
+        return dict(DEFAULT_VARIANT)
+    return {"form": rng.choice(["fresh", "fresh", "fresh", "str", "tuple", "fdef", "lit"]),
+            "cont": rng.choice(["list", "list", "tuple", "range", "gen", "iter", "map"]),
+            "kw": rng.choice(["all", "omit", "pos"]),
+            "dis": rng.choice(["list", "tuple", "four"]),
+            "poison": rng.random() < 0.5}
+
+
+def var_key(var):
+    return "%s/%s/%s/%s/%d" % (var["form"], var["cont"], var["kw"], var["dis"], int(var["poison"]))
+
+
 # ------------------------------------------------------------------ printing
 
-def show_prob(p):
+def show_prob_int(p):
     if isinstance(p, list):
-        return "[ " + "".join(show_prob(x) + " " for x in p) + "]"
+        return "[ " + "".join(show_prob_int(x) + " " for x in p) + "]"
     if isinstance(p, tuple):
-        return "( " + "".join(show_prob(x) + " " for x in p) + ")"
+        return "( " + "".join(show_prob_int(x) + " " for x in p) + ")"
     if isinstance(p, bool) or not isinstance(p, int):
         return "?" + type(p).__name__            # not a value of the modelled domain: shows up as a mismatch
     return str(p)
+
+
+def show_prob(p):
+    """printed form of a problem as the model prints it (values decoded along the current variant)."""
+    return show_prob_int(dec_prob(p))
 
 
 def dis_list(d):
@@ -125,25 +233,108 @@ def pat_tokens(spec):
     raise ValueError(k)
 
 
-def build_pattern(spec):
+def mk_choice(vals, keep=None):
+    """the choice set in the container form of the current variant; every element a separately encoded object."""
+    var = _VARIANT[-1]
+    cont = var["cont"]
+    vals = list(vals)
+    if cont == "range":
+        if var["form"] in ("lit", "fresh", "fdef") and vals and vals == list(range(vals[0], vals[0] + len(vals))):
+            return range(fresh_int(vals[0]), fresh_int(vals[0] + len(vals)))      # range yields new int objects
+        cont = "gen"
+    if cont == "list":
+        lst = [enc(v) for v in vals]
+        if keep is not None:
+            keep.append(("choice", lst, list(lst), var["poison"]))
+        return lst
+    if cont == "tuple":
+        return tuple(enc(v) for v in vals)
+    if cont == "gen":
+        return (enc(v) for v in vals)
+    if cont == "iter":
+        return iter([enc(v) for v in vals])
+    if cont == "map":
+        return map(enc, vals)
+    raise ValueError(cont)
+
+
+def poison_kept(keep):
+    """modify the caller's own choice lists after the builders were constructed."""
+    for item in keep:
+        if item[0] == "choice" and item[3]:
+            lst = item[1]
+            lst.append(enc(97))
+            if len(lst) > 1:
+                lst[0] = enc(98)
+            item[2][:] = list(lst)
+
+
+def build_pattern(spec, keep=None):
+    """spec -> the Python pattern, in the argument forms of the current variant.  `keep` collects
+    (what, object handed to cspuz, copy) so that callers can check the arguments are left alone."""
+    top = keep is None
+    if top:
+        keep = []
+    r = build_pattern_rec(spec, keep)
+    poison_kept(keep)
+    return r
+
+
+def build_pattern_rec(spec, keep):
     from cspuz.generator import ArrayBuilder2D, Choice, SegmentationBuilder2D
+    var = _VARIANT[-1]
     k = spec[0]
     if k == "C":
-        return Choice(list(spec[1]), spec[2])
+        if var["kw"] == "all":
+            return Choice(choice=mk_choice(spec[1], keep), default=enc(spec[2], "d"))
+        return Choice(mk_choice(spec[1], keep), enc(spec[2], "d"))
     if k == "A":
         _, h, w, ch, d, dis, sym, mv, init = spec
-        dd = dis if isinstance(dis, bool) else [tuple(x) for x in dis]
-        return ArrayBuilder2D(h, w, list(ch), d, disallow_adjacent=dd, symmetry=sym,
-                              initial=copy.deepcopy(init), use_move=mv)
+        if isinstance(dis, bool):
+            dd = [(-1, 0), (1, 0), (0, -1), (0, 1)] if (dis and var["dis"] == "four") else dis
+        else:
+            dd = [tuple(x) for x in dis]
+            if var["dis"] == "tuple":
+                dd = tuple(dd)
+        ini = None if init is None else [[enc(v) for v in row] for row in init]
+        if ini is not None:
+            keep.append(("initial", ini, copy.deepcopy(ini), False))
+        if not isinstance(dd, bool):
+            keep.append(("disallow_adjacent", dd, copy.deepcopy(dd), False))
+        cho, de = mk_choice(ch, keep), enc(d, "d")
+        if var["kw"] == "pos":
+            return ArrayBuilder2D(h, w, cho, de, dd, sym, ini, mv)
+        if var["kw"] == "omit":
+            kw = {}
+            if dd is not False:
+                kw["disallow_adjacent"] = dd
+            if sym:
+                kw["symmetry"] = sym
+            if ini is not None:
+                kw["initial"] = ini
+            if mv:
+                kw["use_move"] = mv
+            return ArrayBuilder2D(h, w, cho, de, **kw)
+        return ArrayBuilder2D(height=h, width=w, choice=cho, default=de, disallow_adjacent=dd, symmetry=sym,
+                              initial=ini, use_move=mv)
     if k == "K":
-        return spec[1]
+        return enc(spec[1])
     if k == "L":
-        return [build_pattern(s) for s in spec[1]]
+        return [build_pattern_rec(s, keep) for s in spec[1]]
     if k == "T":
-        return tuple(build_pattern(s) for s in spec[1])
+        return tuple(build_pattern_rec(s, keep) for s in spec[1])
     if k == "S":
         return SegmentationBuilder2D(spec[1], spec[2], **spec[3])
     raise ValueError(k)
+
+
+def args_changed(keep):
+    """arguments handed to the builders that no longer equal their copies."""
+    return [(what, cp, obj) for (what, obj, cp, _) in keep if obj != cp]
+
+
+def enc_grid(g):
+    return [[enc(v) for v in row] for row in g]
 
 
 def has_model(spec):
@@ -162,9 +353,81 @@ def prng_state():
     return (r._x, r._y, r._z, r._w)
 
 
-def seed_prng(seed):
+def seed_prng(seed, how="pos"):
+    """enable the deterministic PRNG.  The seed object is created at run time (never a cached literal);
+    seed None = the documented default (0).  how: positional / keyword / seed argument left out (None only)."""
     import cspuz.generator.srandom as sr
-    sr.use_deterministic_prng(True, seed)
+    sd = None if seed is None else fresh_int(seed)
+    if how == "kw":
+        sr.use_deterministic_prng(enabled=True, seed=sd)
+    elif how == "omit" and sd is None:
+        sr.use_deterministic_prng(True)
+    else:
+        sr.use_deterministic_prng(True, sd)
+
+
+def do_history(hist):
+    """things a process may have done with srandom before the run under test: ('seed', s) enable with another
+    seed, ('draw', n) n mixed draws, ('off',) switch to Python's random, ('py', n) n draws from it."""
+    import cspuz.generator.srandom as sr
+    for h in hist:
+        if h[0] == "seed":
+            seed_prng(h[1])
+        elif h[0] == "draw":
+            for i in range(h[1]):
+                if i % 3 == 0:
+                    sr.randint(0, 1000 + i)
+                elif i % 3 == 1:
+                    sr.random()
+                else:
+                    sr.choice(range(7))
+        elif h[0] == "off":
+            sr.use_deterministic_prng(False)
+        elif h[0] == "py":
+            for i in range(h[1]):
+                sr.random()
+
+
+def gen_history(rng):
+    hist = []
+    for _ in range(rng.choice([0, 1, 1, 2, 3])):
+        k = rng.random()
+        if k < 0.3:
+            hist.append(["seed", rng.choice([0, 1, 5, 88675123, rng.randint(0, 10 ** 6)])])
+        elif k < 0.75:
+            hist.append(["draw", rng.choice([1, 2, 3, 7, 20])])
+        elif k < 0.9:
+            hist.append(["off"])
+        else:
+            hist.append(["py", rng.choice([1, 3])])
+    return hist
+
+
+class RefXorShift:
+    """reference xorshift128 (Marsaglia 2003, p. 5) with the seeding rule of the documentation: the
+    32 low bits of the seed are xor-ed into w.  Independent of cspuz; used by the search only."""
+
+    def __init__(self, seed):
+        self.s = [123456789, 362436069, 521288629, 88675123 ^ (seed % M32)]
+
+    def next(self):
+        x, y, z, w = self.s
+        t = (x ^ (x << 11)) % M32
+        w2 = (w ^ (w >> 19)) ^ (t ^ (t >> 8))
+        self.s = [y, z, w, w2]
+        return w2
+
+
+def ref_randint(g, a, b):
+    """textbook rejection sampling on 32-bit words: the first word below the largest multiple of w."""
+    w = b - a + 1
+    limit = (M32 // w) * w
+    words = []
+    while True:
+        x = g.next()
+        words.append(x)
+        if x < limit:
+            return a + x % w, words
 
 
 def err_tok(name):
@@ -211,7 +474,7 @@ class Callbacks:
         if self.watch:
             snap = copy.deepcopy(problem)
             self.kept.append((problem, snap))
-            self.events.append(("solve", snap))
+            self.events.append(("solve", dec_prob(snap)))
         self.last = [problem, sat, None]
         return (True, h) if sat else (False, None)
 
@@ -228,46 +491,89 @@ class Callbacks:
 
     def clue_penalty(self, problem):
         from cspuz.generator import count_non_default_values
-        return count_non_default_values(problem, 0, 2)
+        return count_non_default_values(dec_prob(problem), 0, 2)
 
 
-def run_tokens(cfg):
-    return "RUN %d %s %d %d %d %d %d %d %d %s %s | %s" % (
-        cfg["seed"], "-" if cfg["max_steps"] is None else cfg["max_steps"], int(cfg["solve_initial"]), cfg["salt"],
+def run_tokens(cfg, state=None):
+    """the model's request for a run; `state` (4 words) replaces the seed for a run that continues the stream."""
+    sd = ":".join(map(str, state)) if state is not None else str(0 if cfg["seed"] is None else cfg["seed"])
+    return "RUN %s %s %d %d %d %d %d %d %d %s %s | %s" % (
+        sd, "-" if cfg["max_steps"] is None else cfg["max_steps"], int(cfg["solve_initial"]), cfg["salt"],
         cfg["ksat"], cfg["kuniq"], cfg["kpre"], int(cfg["pen"]), int(cfg["stateful"]),
         float(cfg["t0"]).hex(), float(cfg["decay"]).hex(), pat_tokens(cfg["pattern"]))
 
 
-def python_run(cfg, hook=None, watch=True):
-    """one real generate_problem run; returns (outcome, callbacks, pattern object)."""
+def call_generate(cfg, cb, pattern):
+    """generate_problem in the calling convention cfg['gp']:
+       pattern   every argument by keyword, builder_pattern= (verbose, so that accepted moves are visible)
+       explicit  initial_problem= / neighbor_generator= taken from build_neighbor_generator
+       omit      arguments that equal their documented defaults are left out (also score / uniqueness when the
+                 synthetic uniqueness test accepts everything, verbose, pretest, clue_penalty)."""
     from cspuz.generator import generate_problem
-    pattern = build_pattern(cfg["pattern"])
-    cb = Callbacks(cfg, watch=watch)
-    seed_prng(cfg["seed"])
-    if hook:
-        hook(True)
-    old_stderr = sys.stderr
-    sys.stderr = cb
-    try:
-        try:
-          with time_limit(60):
-            r = generate_problem(
-                cb.solver, builder_pattern=pattern, score=cb.score,
-                clue_penalty=cb.clue_penalty if cfg["pen"] else None, uniqueness=cb.uniqueness,
-                pretest=cb.pretest if cfg["kpre"] else None, initial_temperature=cfg["t0"],
-                temperature_decay=cfg["decay"], max_steps=cfg["max_steps"],
-                solve_initial_problem=cfg["solve_initial"], verbose=True)
-          out = ("ok", ("None" if r is None else show_prob(r), prng_state(), cb.calls, tuple(cb.trace)))
-          cb.result = r
-        except BaseException as ex:  # noqa
-            if isinstance(ex, (KeyboardInterrupt, SystemExit)):
-                raise
-            out = ("err", err_name(ex))
-            cb.result = None
-    finally:
-        sys.stderr = old_stderr
+    gp = cfg.get("gp", "pattern")
+    if gp == "omit":
+        kw = {"builder_pattern": pattern}
+        if cfg["kuniq"] != 1:
+            kw["uniqueness"] = cb.uniqueness
+            kw["score"] = cb.score
+        if cfg["pen"]:
+            kw["clue_penalty"] = cb.clue_penalty
+        if cfg["kpre"]:
+            kw["pretest"] = cb.pretest
+        if cfg["t0"] != 5.0:
+            kw["initial_temperature"] = cfg["t0"]
+        if cfg["decay"] != 0.995:
+            kw["temperature_decay"] = cfg["decay"]
+        if cfg["max_steps"] is not None:
+            kw["max_steps"] = cfg["max_steps"]
+        if cfg["solve_initial"]:
+            kw["solve_initial_problem"] = True
+        return generate_problem(cb.solver, **kw)
+    kw = dict(score=cb.score, clue_penalty=cb.clue_penalty if cfg["pen"] else None, uniqueness=cb.uniqueness,
+              pretest=cb.pretest if cfg["kpre"] else None, initial_temperature=cfg["t0"],
+              temperature_decay=cfg["decay"], max_steps=cfg["max_steps"],
+              solve_initial_problem=cfg["solve_initial"], verbose=True)
+    if gp == "explicit":
+        from cspuz.generator import build_neighbor_generator
+        ini, gen = build_neighbor_generator(pattern)
+        return generate_problem(cb.solver, initial_problem=ini, neighbor_generator=gen, **kw)
+    return generate_problem(cb.solver, builder_pattern=pattern, **kw)
+
+
+def python_run(cfg, hook=None, watch=True, pattern=None, reseed=True):
+    """one real generate_problem run; returns (outcome, callbacks, pattern object).  cfg may carry
+    'var' (input variant), 'hist' (what the process did with srandom before), 'seedhow', 'gp'.
+    pattern: reuse these builder objects instead of building new ones; reseed=False: continue the stream."""
+    with variant(cfg.get("var")):
+        keep = []
+        if pattern is None:
+            pattern = build_pattern(cfg["pattern"], keep)
+        cb = Callbacks(cfg, watch=watch)
+        cb.keep = keep
+        cb.has_events = cfg.get("gp", "pattern") != "omit"
+        if reseed:
+            do_history(cfg.get("hist") or [])
+            seed_prng(cfg["seed"], cfg.get("seedhow", "pos"))
         if hook:
-            hook(False)
+            hook(True)
+        old_stderr = sys.stderr
+        sys.stderr = cb
+        try:
+            try:
+              with time_limit(60):
+                r = call_generate(cfg, cb, pattern)
+              out = ("ok", ("None" if r is None else show_prob(r), prng_state(), cb.calls, tuple(cb.trace)))
+              cb.result = r
+            except BaseException as ex:  # noqa
+                if isinstance(ex, (KeyboardInterrupt, SystemExit)):
+                    raise
+                out = ("err", err_name(ex))
+                cb.result = None
+        finally:
+            sys.stderr = old_stderr
+            if hook:
+                hook(False)
+        cb.args_changed = args_changed(keep)
     return out, cb, pattern
 
 
@@ -325,6 +631,12 @@ def tuplify(x):
 SEEDS_EDGE = [0, 1, 2, 88675123, M32 - 1, M32, M32 + 5, -1, -2, -M32, (1 << 40) + 17, 123456789, 2 ** 31, 2 ** 31 - 1]
 
 
+# widths at which the rejection loop of randint runs often (rejection probability 2^32 mod w / 2^32: just under
+# 1/2 at 2^31 + 1, 1/4 at 3 * 2^30, 1/3 near 2^32 / 3 + 1) or never (powers of two, 2^32)
+WIDE_WIDTHS = [M32, M32 - 1, (1 << 31) + 1, (1 << 31), (1 << 31) - 1, 3 * (1 << 30), (M32 // 3) + 1, (1 << 31) + 2,
+               3 * (1 << 30) + 1, 3 * (1 << 30) - 1, (1 << 31) + (1 << 30) + (1 << 29), 5 * (1 << 29), (M32 // 3) * 2 + 1]
+
+
 def gen_ab(rng):
     k = rng.random()
     if k < 0.25:
@@ -335,8 +647,7 @@ def gen_ab(rng):
         b = a + rng.choice([0, 1, 2, 3, 4, 6, 9, 15, 16, 100, rng.randint(0, 10 ** 5)])
     elif k < 0.7:
         # wide domains: rejection is frequent just above 2^31
-        w = rng.choice([M32, M32 - 1, (1 << 31) + 1, (1 << 31), (1 << 31) - 1, 3 * (1 << 30), (M32 // 3) + 1,
-                        rng.randint(1 << 30, M32)])
+        w = rng.choice(WIDE_WIDTHS + [rng.randint(1 << 30, M32), (1 << 31) + rng.randint(1, 1 << 20)])
         a = rng.choice([0, 1, -5, -(1 << 31), 12345, -(1 << 33)])
         b = a + w - 1
     elif k < 0.8:
@@ -359,29 +670,50 @@ def gen_ops(rng, n):
             ops.append(("n",))
         elif k < 0.55:
             ops.append(("r",) + gen_ab(rng))
+        elif k < 0.66:
+            ops.append(("c", rng.choice([0, 1, 1, 2, 3, 5, 8, 17, 100, 257, 4096])))
         elif k < 0.7:
-            ops.append(("c", rng.choice([0, 1, 1, 2, 3, 5, 8, 17, 100])))
+            # choice over a huge Sequence (a range): by Props/C19.v::choice_uniform it is randint(0, len - 1)
+            ops.append(("C", rng.choice(WIDE_WIDTHS[1:] + [rng.randint(1 << 30, M32)])))
         elif k < 0.85:
-            ops.append(("s", rng.choice([0, 1, 2, 3, 4, 6, 9, 20])))
+            ops.append(("s", rng.choice([0, 1, 2, 3, 4, 6, 9, 20, 21, 64, 257] + ([1000] if rng.random() < 0.2 else []))))
         else:
             ops.append(("f",))
     return ops
 
 
-def py_ops(seed, ops):
+def op_tokens(op):
+    if op[0] == "C":
+        return "r 0 %d" % (op[1] - 1)
+    return " ".join(map(str, op))
+
+
+def choice_seq(n, i):
+    """the candidates 0..n-1 as a list / range / tuple (all are Sequences), by position in the op list."""
+    return [list(range(n)), range(n), tuple(range(n))][(n + i) % 3]
+
+
+def py_ops(seed, ops, hist=None, how="pos"):
     import cspuz.generator.srandom as sr
     import cspuz.generator.deterministic_random as dr
-    seed_prng(seed)
+    do_history(hist or [])
+    seed_prng(seed, how)
     out = []
-    for op in ops:
+    for i, op in enumerate(ops):
         try:
           with time_limit(20):
             if op[0] == "n":
                 out.append(str(dr._rng.next()))
             elif op[0] == "r":
-                out.append(str(sr.randint(op[1], op[2])))
+                out.append(str(sr.randint(fresh_int(op[1]), fresh_int(op[2]))))
             elif op[0] == "c":
-                out.append(str(sr.choice(list(range(op[1])))))
+                cand = choice_seq(op[1], i)
+                c0 = list(cand)
+                out.append(str(sr.choice(cand)))
+                if list(cand) != c0:
+                    out.append("candidates-modified")
+            elif op[0] == "C":
+                out.append(str(sr.choice(range(op[1]))))
             elif op[0] == "s":
                 l = list(range(op[1]))
                 sr.shuffle(l)
@@ -397,7 +729,19 @@ def py_ops(seed, ops):
     return out, prng_state()
 
 
+# offsets that move a whole choice set (and its default) outside CPython's small-int cache [-5, 256], or across its edge
+OFFSETS = [1000, 257, 255, -10, -7, 300, 4096, 1 << 31, (1 << 40) + 3, -(1 << 33), 65535]
+
+
 def gen_choice_set(rng):
+    ch, d = gen_choice_set0(rng)
+    if rng.random() < 0.3:
+        off = rng.choice(OFFSETS)
+        ch, d = [v + off for v in ch], d + off
+    return ch, d
+
+
+def gen_choice_set0(rng):
     k = rng.random()
     if k < 0.3:
         return [0, 1], 0
@@ -473,12 +817,75 @@ def gen_pattern(rng, depth=0, allow_bad=True):
     return [rng.choice(["L", "T"]), [gen_pattern(rng, depth + 1, allow_bad) for _ in range(n)]]
 
 
-def gen_run_cfg(rng, pattern=None, thorough=False):
+def structured_grid(rng, h, w, vals, d, shape):
+    """a larger board with a targeted layout of non-default cells."""
+    g = [[d for _ in range(w)] for _ in range(h)]
+    nd = [v for v in vals if v != d] or [d]
+    cells = []
+    if shape == "diag":
+        cells = [(i, i) for i in range(min(h, w))]
+    elif shape == "x":
+        cells = [(i, i * (w - 1) // max(1, h - 1)) for i in range(h)] + [(i, (h - 1 - i) * (w - 1) // max(1, h - 1)) for i in range(h)]
+    elif shape == "spiral":
+        y, x, dy, dx, seen = 0, 0, 0, 1, set()
+        for _ in range(h * w):
+            seen.add((y, x))
+            if (y + x) % 2 == 0:
+                cells.append((y, x))
+            if not (0 <= y + dy < h and 0 <= x + dx < w) or (y + dy, x + dx) in seen:
+                dy, dx = dx, -dy
+            y, x = y + dy, x + dx
+            if not (0 <= y < h and 0 <= x < w) or (y, x) in seen:
+                break
+    elif shape == "checker":
+        cells = [(y, x) for y in range(h) for x in range(w) if (y + x) % 2 == 0]
+    elif shape == "full":
+        cells = [(y, x) for y in range(h) for x in range(w)]
+    elif shape == "sympair":
+        cells = [(0, 0), (h - 1, w - 1), (0, w - 1), (h - 1, 0), (h // 2, w // 2)]
+    for (y, x) in cells:
+        if 0 <= y < h and 0 <= x < w:
+            g[y][x] = rng.choice(nd)
+    return g
+
+
+LARGE_SIZES = [(4, 5), (5, 5), (2, 7), (7, 7), (1, 9), (6, 1), (3, 8), (5, 4)]
+SHAPES = ["diag", "x", "spiral", "checker", "full", "sympair", "empty"]
+
+
+def gen_large_array(rng):
+    """boards just beyond the exhaustive-ish small scope, with structured contents as initial grid."""
+    h, w = rng.choice(LARGE_SIZES)
+    ch, d = gen_choice_set(rng)
+    if not ch:
+        ch, d = [0, 1, 2], 0
+    dis = rng.choice([False, True, True, [[1, 1], [-1, -1], [1, -1], [-1, 1]], [[0, 2], [0, -2], [2, 0], [-2, 0]]])
+    sym = rng.random() < 0.6
+    mv = rng.random() < 0.4
+    g = structured_grid(rng, h, w, ch, d, rng.choice(SHAPES))
+    if sym and rng.random() < 0.7:        # make it point symmetric (the invariant the symmetry option keeps)
+        for y in range(h):
+            for x in range(w):
+                if (g[y][x] != d) != (g[h - 1 - y][w - 1 - x] != d):
+                    g[h - 1 - y][w - 1 - x] = g[y][x]
+    return ["A", h, w, ch, d, dis, sym, mv, g]
+
+
+def gen_run_cfg(rng, pattern=None, thorough=False, hardened=True):
     pat = pattern if pattern is not None else gen_pattern(rng)
     t0, decay = rng.choice([(5.0, 0.995), (5.0, 0.995), (0.5, 0.9), (100.0, 1.0), (0.001, 0.8), (2.0, 0.5), (1.0, 0.99)])
+    extra = {}
+    if hardened and rng.random() < 0.6:
+        # seed None / 0 / outside the small-int cache, after some history in this process; argument forms
+        extra = {"var": gen_variant(rng, plain=0.2), "hist": gen_history(rng),
+                 "seedhow": rng.choice(["pos", "kw", "omit"]), "gp": rng.choice(["pattern", "pattern", "explicit", "omit"])}
+    seeds = SEEDS_EDGE + [rng.randint(0, 10 ** 6) for _ in range(10)]
+    if extra:
+        seeds = seeds + [None, None, None, 0, 0, 0, 257, -6, 1000]
     return {
+        **extra,
         "pattern": pat,
-        "seed": rng.choice(SEEDS_EDGE + [rng.randint(0, 10 ** 6) for _ in range(10)]),
+        "seed": rng.choice(seeds),
         "max_steps": rng.choice([0, 1, 3, 8, 15, 25, 40] + ([60, 80] if thorough else [])),
         "solve_initial": rng.random() < 0.35,
         "salt": rng.randint(0, 10 ** 6),
@@ -559,6 +966,11 @@ class DrawLog:
 
 # ------------------------------------------------------------------ correspondence
 
+def parse_x_reply(o):
+    body, st = o.rsplit("|", 1)
+    return ([x.strip() for x in body.split(" ; ") if x.strip()], tuple(int(x) for x in st.split()))
+
+
 def corr_prng(ctx, m):
     rng = ctx.rng
     nseq = 400 if ctx.thorough else 120
@@ -566,26 +978,53 @@ def corr_prng(ctx, m):
     reqs, cases = [], []
     for seed in seeds:
         ops = gen_ops(rng, rng.choice([1, 5, 20, 40]))
-        reqs.append("X %d | %s" % (seed, " ".join(" ".join(map(str, op)) for op in ops)))
-        cases.append((seed, ops))
+        reqs.append("X %d | %s" % (seed, " ".join(op_tokens(op) for op in ops)))
+        cases.append((seed, ops, [], "pos"))
+    # histories: the same seed (0, the default None, small, outside the small-int cache) enabled again after the
+    # process has already drawn / used other seeds / switched the deterministic PRNG off and on
+    for i in range(nseq):
+        seed = rng.choice([0, 0, None, None, 1, 257, 1000, -6, 88675123, M32, rng.randint(0, 10 ** 6)])
+        ops = gen_ops(rng, rng.choice([1, 5, 12]))
+        hist = gen_history(rng) or [["draw", 2]]
+        reqs.append("X %d | %s" % (0 if seed is None else seed, " ".join(op_tokens(op) for op in ops)))
+        cases.append((seed, ops, hist, rng.choice(["pos", "kw", "omit"])))
+    # the rejection loop: long pure randint streams over the widths where a word is often rejected
+    for i in range(60 if ctx.thorough else 24):
+        seed = rng.randint(0, 10 ** 9)
+        w = WIDE_WIDTHS[i % len(WIDE_WIDTHS)]
+        a = rng.choice([0, 1, -5, -(1 << 31), -(1 << 33), 12345])
+        ops = [("r", a, a + w - 1)] * 150
+        reqs.append("X %d | %s" % (seed, " ".join(op_tokens(op) for op in ops)))
+        cases.append((seed, ops, [], "pos"))
     # the raw stream and the seeding
     for seed in seeds[:40]:
         reqs.append("W %d 64" % seed)
     outs = m.batch(reqs)
-    for (seed, ops), o in zip(cases, outs[:len(cases)]):
-        body, st = o.rsplit("|", 1)
-        mo = ([x.strip() for x in body.split(" ; ") if x.strip()], tuple(int(x) for x in st.split()))
-        po = py_ops(seed, ops)
+    for (seed, ops, hist, how), o in zip(cases, outs[:len(cases)]):
+        mo = parse_x_reply(o)
+        po = py_ops(seed, ops, hist, how)
         for op in ops:
             ctx.count("prng-op:" + op[0])
-        ctx.corr("prng", (seed, tuple(ops)), mo, (po[0], po[1]))
+        if hist:
+            ctx.count("prng-after-history:seed=%s" % ("None" if seed is None else "0" if seed == 0 else "other"))
+        ctx.corr("prng", (seed, tuple(ops), json.dumps(hist), how), mo, (po[0], po[1]))
     import cspuz.generator.deterministic_random as dr
     for seed, o in zip(seeds[:40], outs[len(cases):]):
-        g = dr.XorShift(seed)
+        g = dr.XorShift(fresh_int(seed))
         s0 = (g._x, g._y, g._z, g._w)
         ws = [g.next() for _ in range(64)]
         ctx.corr("words", seed, tuple(int(x) for x in o.split()), tuple(ws))
         ctx.corr("seed", seed, tuple(int(x) for x in m.call("S %d" % seed).split()), s0)
+
+
+def show_updates(spec, cands):
+    ups = []
+    for u in cands:
+        if spec[0] == "C":
+            ups.append("V %s" % show_prob_int(dec_leaf(u)))
+        else:
+            ups.append("U" + "".join(" %d %d %s" % (y, x, show_prob_int(v)) for (y, x, v) in dec_update(u)))
+    return tuple(ups)
 
 
 def py_candidates(spec, cur, seed):
@@ -593,14 +1032,30 @@ def py_candidates(spec, cur, seed):
         b = build_pattern(spec)
         seed_prng(seed)
         cands = b.candidates(cur)
-        ups = []
-        for u in cands:
-            if spec[0] == "C":
-                ups.append("V %d" % u)
-            else:
-                ups.append("U" + "".join(" %d %d %d" % t for t in u))
         applied = [show_prob(b.copy_with_update(cur, u)) for u in cands]
-        return (tuple(ups), tuple(applied), prng_state())
+        return (show_updates(spec, cands), tuple(applied), prng_state())
+
+
+def py_candidates_hist(spec, cur, seed):
+    """candidates() three times on ONE builder object: after seeding; again, continuing the stream, after
+    the caller has emptied the list it got (and the update lists in it); again after re-seeding with the same
+    seed.  Returns the three (updates, state) pairs and whether the builder's arguments were left alone."""
+    with time_limit(30):
+        keep = []
+        b = build_pattern(spec, keep)
+        seed_prng(seed)
+        c1 = b.candidates(cur)
+        r1 = (show_updates(spec, c1), prng_state())
+        for u in c1:
+            if isinstance(u, list):
+                del u[:]
+        del c1[:]
+        c2 = b.candidates(cur)
+        r2 = (show_updates(spec, c2), prng_state())
+        seed_prng(seed, "kw")
+        c3 = b.candidates(cur)
+        r3 = (show_updates(spec, c3), prng_state())
+        return (r1, r2, r3, tuple(w for (w, _, _) in args_changed(keep)))
 
 
 def parse_cand_reply(r):
@@ -614,39 +1069,83 @@ def parse_cand_reply(r):
     return ("ok", (ups, app, tuple(int(x) for x in c.split())))
 
 
+def gen_cand_case(rng, large=False):
+    """(spec, variant, current problem as integers) for the candidates stream."""
+    var = gen_variant(rng)
+    if large:
+        spec = gen_large_array(rng)
+        cur = copy.deepcopy(spec[8])
+        if rng.random() < 0.5:
+            spec[8] = None
+        return spec, var, cur
+    if rng.random() < 0.15:
+        spec = gen_choice_spec(rng)
+        return spec, var, rng.choice(spec[1] + [spec[2], 9])
+    spec = gen_array_spec(rng)
+    if rng.random() < 0.6:
+        with variant(var):
+            cur = walk_problem(rng, spec, rng.randint(0, 6))
+            cur = None if cur is None else dec_prob(cur)
+        if cur is None:
+            cur = copy.deepcopy(spec[8]) if spec[8] is not None else []
+    else:
+        vals = list(spec[3]) + [spec[4], 8]
+        cur = [[rng.choice(vals) for _ in range(spec[2])] for _ in range(spec[1])]
+    return spec, var, cur
+
+
+def enc_cur(spec, cur):
+    return enc(cur) if spec[0] == "C" else enc_grid(cur)
+
+
 def corr_candidates(ctx, m):
     rng = ctx.rng
     n = 1500 if ctx.thorough else 350
+    nl = 150 if ctx.thorough else 40
     reqs, cases = [], []
-    for i in range(n):
-        if rng.random() < 0.15:
-            spec = gen_choice_spec(rng)
-            cur = rng.choice(spec[1] + [spec[2], 9])
-        else:
-            spec = gen_array_spec(rng)
-            if rng.random() < 0.6:
-                cur = walk_problem(rng, spec, rng.randint(0, 6))
-                if cur is None:
-                    cur = copy.deepcopy(spec[8]) if spec[8] is not None else []
-            else:
-                vals = list(spec[3]) + [spec[4], 8]
-                cur = [[rng.choice(vals) for _ in range(spec[2])] for _ in range(spec[1])]
+    for i in range(n + nl):
+        spec, var, cur = gen_cand_case(rng, large=i >= n)
         seed = rng.randint(0, 10 ** 6)
-        reqs.append("CAND %d | %s | %s" % (seed, pat_tokens(spec), show_prob(cur)))
-        cases.append((spec, cur, seed))
+        reqs.append("CAND %d | %s | %s" % (seed, pat_tokens(spec), show_prob_int(cur)))
+        cases.append((spec, var, cur, seed))
     outs = m.batch(reqs)
-    for (spec, cur, seed), o in zip(cases, outs):
-        cur0 = copy.deepcopy(cur)
-        po = vlib.guarded(py_candidates, spec, cur, seed)
+    hist_cases = []
+    for (spec, var, cur, seed), o in zip(cases, outs):
+        mo = parse_cand_reply(o)
+        with variant(var):
+            raw = enc_cur(spec, cur)
+            raw0 = copy.deepcopy(raw)
+            po = vlib.guarded(py_candidates, spec, raw, seed)
+            changed = raw != raw0
         if spec[0] == "A":
             ctx.count("cand:sym=%d,adj=%s,move=%d" % (spec[6], "custom" if isinstance(spec[5], list) else spec[5], spec[7]))
+            if spec[1] * spec[2] >= 20:
+                ctx.count("cand:board>=20cells")
         else:
             ctx.count("cand:choice")
-        ctx.corr("cand", (json.dumps(spec), show_prob(cur0), seed), parse_cand_reply(o), po)
+        ctx.count("cand-variant:form=" + var["form"])
+        ctx.count("cand-variant:cont=" + var["cont"])
+        if spec[0] == "A" and any(not (-5 <= v <= 256) for v in list(spec[3]) + [spec[4]]):
+            ctx.count("cand:values-outside-small-int-cache")
+        ctx.corr("cand", (json.dumps(spec), show_prob_int(cur), seed, var_key(var)), mo, po)
         ctx.count("cand-outcome:" + (po[1] if po[0] == "err" else ("empty" if not po[1][0] else "some")))
-        if cur != cur0:
+        if changed:
             ctx.violation("candidates-mutate-current", "candidates()/copy_with_update() modified the current problem",
-                          {"builder": spec, "current": cur0, "after": cur, "seed": seed})
+                          {"builder": spec, "variant": var, "current": cur, "seed": seed})
+        if mo[0] == "ok":
+            hist_cases.append((spec, var, cur, seed, mo))
+    # the same builder object asked again (class: histories / object reuse)
+    outs2 = m.batch(["CAND %s | %s | %s" % (" ".join(map(str, mo[1][2])), pat_tokens(spec), show_prob_int(cur))
+                     for (spec, var, cur, seed, mo) in hist_cases])
+    for (spec, var, cur, seed, mo), o2 in zip(hist_cases, outs2):
+        mo2 = parse_cand_reply(o2)
+        if mo2[0] != "ok":
+            continue
+        with variant(var):
+            po = vlib.guarded(py_candidates_hist, spec, enc_cur(spec, cur), seed)
+        first = (mo[1][0], mo[1][2])
+        ctx.corr("cand-twice", (json.dumps(spec), show_prob_int(cur), seed, var_key(var)),
+                 ("ok", (first, (mo2[1][0], mo2[1][2]), first, ())), po)
 
 
 def py_neighbours(spec, p, seed):
@@ -657,6 +1156,21 @@ def py_neighbours(spec, p, seed):
         seed_prng(seed)
         ns = list(gen(p))
         return (tuple(show_prob(q) for q in ns), prng_state())
+
+
+def py_neighbours_twice(spec, p, seed):
+    """one generator object used twice (continuing the stream), then once more after re-seeding."""
+    with time_limit(30):
+        from cspuz.generator import build_neighbor_generator
+        keep = []
+        pattern = build_pattern(spec, keep)
+        _, gen = build_neighbor_generator(pattern)
+        seed_prng(seed)
+        r1 = (tuple(show_prob(q) for q in gen(p)), prng_state())
+        r2 = (tuple(show_prob(q) for q in gen(p)), prng_state())
+        seed_prng(seed)
+        r3 = (tuple(show_prob(q) for q in gen(p)), prng_state())
+        return (r1, r2, r3, tuple(w for (w, _, _) in args_changed(keep)))
 
 
 def parse_nb_reply(r):
@@ -676,24 +1190,61 @@ def corr_neighbours(ctx, m):
     ctx._c19_nb = []
     for i in range(n):
         spec = gen_pattern(rng, allow_bad=False)
-        p = walk_problem(rng, spec, rng.randint(0, 5))
-        if p is None:
-            continue
-        # the initial problem itself
-        ini = vlib.guarded(lambda: show_prob(build_neighbor_generator(build_pattern(spec))[0]))
-        ctx.corr("initial", json.dumps(spec), ("ok", m.call("INIT " + pat_tokens(spec))), ini)
+        if i % 12 == 11:
+            spec = ["L", [gen_large_array(rng), gen_choice_spec(rng)]] if rng.random() < 0.5 else gen_large_array(rng)
+        var = gen_variant(rng)
+        with variant(var):
+            p = walk_problem(rng, spec, rng.randint(0, 5))
+            if p is None:
+                continue
+            p = dec_prob(p)
+            # the initial problem itself
+            ini = vlib.guarded(lambda: show_prob(build_neighbor_generator(build_pattern(spec))[0]))
+        ctx.corr("initial", (json.dumps(spec), var_key(var)), ("ok", m.call("INIT " + pat_tokens(spec))), ini)
         seed = rng.randint(0, 10 ** 6)
-        reqs.append("NB %d | %s | %s" % (seed, pat_tokens(spec), show_prob(p)))
-        cases.append((spec, p, seed))
+        reqs.append("NB %d | %s | %s" % (seed, pat_tokens(spec), show_prob_int(p)))
+        cases.append((spec, var, p, seed))
     outs = m.batch(reqs)
-    for (spec, p, seed), o in zip(cases, outs):
-        p0 = copy.deepcopy(p)
-        po = vlib.guarded(py_neighbours, spec, p, seed)
-        ctx.corr("neighbours", (json.dumps(spec), show_prob(p0), seed), parse_nb_reply(o), po)
-        ctx._c19_nb.append((spec, p0, seed))
-        if p != p0:
+    twice = []
+    for (spec, var, p, seed), o in zip(cases, outs):
+        mo = parse_nb_reply(o)
+        with variant(var):
+            raw = enc_problem(spec, p)
+            raw0 = copy.deepcopy(raw)
+            po = vlib.guarded(py_neighbours, spec, raw, seed)
+            changed = raw != raw0
+        ctx.count("nb-variant:form=" + var["form"])
+        ctx.corr("neighbours", (json.dumps(spec), show_prob_int(p), seed, var_key(var)), mo, po)
+        ctx._c19_nb.append((spec, var, p, seed))
+        if changed:
             ctx.violation("generator-mutates-current", "the neighbour generator modified the current problem",
-                          {"pattern": spec, "current": p0, "after": p, "seed": seed})
+                          {"pattern": spec, "variant": var, "current": p, "seed": seed})
+        if mo[0] == "ok" and (ctx.thorough or len(twice) < 120):
+            twice.append((spec, var, p, seed, mo))
+    outs2 = m.batch(["NB %s | %s | %s" % (" ".join(map(str, mo[1][1])), pat_tokens(spec), show_prob_int(p))
+                     for (spec, var, p, seed, mo) in twice])
+    for (spec, var, p, seed, mo), o2 in zip(twice, outs2):
+        mo2 = parse_nb_reply(o2)
+        if mo2[0] != "ok":
+            continue
+        with variant(var):
+            po = vlib.guarded(py_neighbours_twice, spec, enc_problem(spec, p), seed)
+        ctx.corr("neighbours-twice", (json.dumps(spec), show_prob_int(p), seed, var_key(var)),
+                 ("ok", (mo[1], mo2[1], mo[1], ())), po)
+
+
+def enc_problem(spec, p):
+    """integer problem -> the value forms of the current variant, along the pattern."""
+    k = spec[0]
+    if k in ("C", "K"):
+        return enc(p)
+    if k == "A":
+        return enc_grid(p)
+    if k == "L":
+        return [enc_problem(s, x) for s, x in zip(spec[1], p)]
+    if k == "T":
+        return tuple(enc_problem(s, x) for s, x in zip(spec[1], p))
+    return p
 
 
 def corr_runs(ctx, m):
@@ -707,9 +1258,17 @@ def corr_runs(ctx, m):
     cfgs.append(dict(gen_run_cfg(rng, ["A", 3, 4, [-1, 0, 1, 2, 3], -1, False, True, True, None]), max_steps=10, kuniq=10 ** 9))
     cfgs.append(dict(gen_run_cfg(rng, ["L", [["A", 2, 2, [0, 1], 0, False, False, False, None], ["C", [1, 2, 3], 1],
                                              ["T", [["C", [0, 5], 0], ["K", 4]]]]]), max_steps=25, kuniq=50))
+    # shifted clue encodings ("1000 = empty, 1000 + k = clue k") and boards beyond the small scope
+    cfgs.append(dict(gen_run_cfg(rng, ["A", 3, 3, [1000, 1001, 1002, 1003], 1000, False, True, False, None]), max_steps=20, kuniq=400,
+                     var=dict(DEFAULT_VARIANT, form="fresh", cont="range")))
+    cfgs.append(dict(gen_run_cfg(rng, ["A", 4, 4, [-10, -9, -8], -10, True, True, False, None]), max_steps=15, kuniq=10 ** 9,
+                     var=dict(DEFAULT_VARIANT, form="fresh", cont="gen", kw="omit")))
+    for _ in range(30 if ctx.thorough else 8):
+        cfgs.append(dict(gen_run_cfg(rng, gen_large_array(rng)), max_steps=rng.choice([2, 5, 10]), kuniq=10 ** 9))
     outs = m.batch([run_tokens(c) for c in cfgs])
     ctx._c19_runs = []
     replays = []
+    again = []
     import random as pyrandom
     for cfg, o in zip(cfgs, outs):
         pyrandom.seed(rng.randint(0, 10 ** 9))
@@ -717,8 +1276,23 @@ def corr_runs(ctx, m):
         po, cb, pattern = python_run(cfg, hook=log)
         mo = parse_run_reply(o)
         ctx.count("run:" + ("err" if po[0] == "err" else ("found" if po[1][0] != "None" else "none")))
+        ctx.count("run-seed:" + ("None" if cfg["seed"] is None else "0" if cfg["seed"] == 0 else "other")
+                  + (",after-history" if cfg.get("hist") else ""))
+        ctx.count("run-call-form:" + cfg.get("gp", "pattern"))
+        if "var" in cfg:
+            ctx.count("run-variant:form=" + cfg["var"]["form"])
         ctx.corr("run", json.dumps(cfg), mo, po)
-        ctx._c19_runs.append((cfg, po, cb, pattern))
+        # the same builder objects used for a second generation under the same seed, then for a third one that
+        # continues the stream (no re-seeding)
+        po2 = po3 = None
+        if po[0] == "ok" and mo[0] == "ok":
+            po2, cb2, _ = python_run(cfg, pattern=pattern)
+            ctx.corr("run-same-objects", json.dumps(cfg), mo, po2)
+            cb.args_changed = cb.args_changed + cb2.args_changed
+            if len(again) < (600 if ctx.thorough else 150):
+                po3, cb3, _ = python_run(cfg, pattern=pattern, reseed=False)
+                again.append((cfg, mo[1][1], po3))
+        ctx._c19_runs.append((cfg, po, cb, pattern, po2))
         # every srandom draw of the run, replayed on the model from the recorded state
         prev = None
         for (call, s0, res, s1) in log.items:
@@ -728,6 +1302,9 @@ def corr_runs(ctx, m):
             replays.append((cfg, call, s0, res, s1))
             ctx.count("run-draw:" + call[0])
         ctx.count("run-solver-calls", len(cb.trace))
+    outs3 = m.batch([run_tokens(cfg, state=st) for (cfg, st, _) in again])
+    for (cfg, st, po3), o3 in zip(again, outs3):
+        ctx.corr("run-continued-same-objects", (json.dumps(cfg), st), parse_run_reply(o3), po3)
     if ctx.thorough or len(replays) <= 60000:
         sel = replays
     else:
@@ -754,7 +1331,7 @@ def corr_runs(ctx, m):
         raise RuntimeError("subrun failed: " + p.stderr[-2000:])
     second = [tuplify(x) for x in json.loads(p.stdout)]
     ctx._c19_second = []
-    for (cfg, po, cb, _), so in zip(ctx._c19_runs, second):
+    for (cfg, po, cb, _, _), so in zip(ctx._c19_runs, second):
         ctx.corr("rerun-other-process", json.dumps(cfg), po, so)
         ctx._c19_second.append(so)
 
@@ -940,32 +1517,156 @@ def search_prng(ctx):
         ctx.violation("random-not-uniform", "random() does not spread over [0, 1)", {"min": lo, "max": hi})
 
 
+def search_prng_stream(ctx):
+    """the deterministic draws against an independent reference: xorshift128 as published + textbook rejection
+    sampling (the first 32-bit word below the largest multiple of w, reduced mod w).  Every value that came from a
+    word in the incomplete last bucket carries modulo bias, whatever the frequencies of a short sample look like;
+    the wide domains are those where such words are frequent."""
+    import cspuz.generator.srandom as sr
+    rng = ctx.rng
+    ndraw = 400 if (ctx.thorough or ctx.deep) else 160
+    doms = []
+    for w in WIDE_WIDTHS:
+        for a in (0, rng.choice([1, -5, -(1 << 31), -(1 << 33), 12345])):
+            doms.append((a, a + w - 1))
+    doms += [(0, 2), (5, 9), (-3, 3), (0, 255), (0, 256), (-6, 257), (1000, 1000), (0, 99999), (-(1 << 40), -(1 << 40) + 6)]
+    for (a, b) in doms:
+        seed = rng.choice([0, 1, rng.randint(0, 10 ** 9), rng.randint(-(1 << 33), 1 << 34)])
+        ref = RefXorShift(seed)
+        seed_prng(seed)
+        w = b - a + 1
+        synced = True
+        for j in range(ndraw):
+            exp, words = ref_randint(ref, a, b)
+            use_choice = a == 0 and j % 4 == 3                # choice over a Sequence of w candidates draws the same
+            detail = {"seed": seed, "a": a, "b": b, "draw_index": j, "via": "choice(range(w))" if use_choice else "randint"}
+            if use_choice:
+                ok, v = call_valid(ctx, "choice-raises", detail, sr.choice, range(fresh_int(w)))
+            else:
+                ok, v = call_valid(ctx, "randint-raises", detail, sr.randint, fresh_int(a), fresh_int(b))
+            ctx.prop_case("randint-vs-rejection-sampler", (seed, a, b, j))
+            if len(words) > 1:
+                ctx.count("ref-draws-with-%s-rejections" % (len(words) - 1 if len(words) < 4 else "3+"))
+            if not ok:
+                synced = False
+                break
+            if v != exp:
+                synced = False
+                ctx.violation("randint-not-rejection-sampled",
+                              "a deterministic draw differs from rejection sampling on the reference xorshift128 stream "
+                              "(a value computed from a 32-bit word in the incomplete last bucket is biased towards the low residues)",
+                              dict(detail, value=v, expected=exp, reference_words=words, limit=(M32 // w) * w))
+                break
+        # random(): the next reference word / 2^32
+        if not synced:
+            continue
+        ok, r = call_valid(ctx, "random-raises", {"seed": seed}, sr.random)
+        if ok and Fraction(r) != Fraction(ref.next(), M32):
+            ctx.violation("random-not-word-over-2^32", "random() is not the next 32-bit word divided by 2^32",
+                          {"seed": seed, "after_randint_draws": ndraw, "a": a, "b": b, "value": r})
+
+
+def observe_stream(seed, how):
+    """what a client sees right after enabling the deterministic PRNG with `seed`."""
+    import cspuz.generator.srandom as sr
+    with time_limit(30):
+        seed_prng(seed, how)
+        out = [sr.randint(0, 999) for _ in range(6)]
+        out.append(sr.choice(["a", "b", "c", "d", "e"]))
+        l = list(range(8))
+        sr.shuffle(l)
+        out.append(tuple(l))
+        out.append(sr.random())
+        out.append(sr.randint(-(1 << 31), 1 << 30))
+        return tuple(out)
+
+
+def search_reseed(ctx):
+    """same seed, same stream / candidates / generated problem -- within ONE process, whatever the process did
+    with srandom before (the subprocess rerun covers 'first use in a fresh process')."""
+    rng = ctx.rng
+    seeds = [0, None, 1, 7, 257, -6, 1000, M32, 88675123, (1 << 40) + 17] + [rng.randint(0, 10 ** 6) for _ in range(4)]
+    nh = 6 if (ctx.thorough or ctx.deep) else 3
+    pats = [["A", 3, 3, [0, 1, 2, 3], 0, False, True, False, None],
+            ["A", 2, 4, [0, 1], 0, True, False, True, None],
+            ["L", [["C", [0, 1, 2], 0], ["A", 2, 2, [5, 6], 5, False, False, False, None]]]]
+    for seed in seeds:
+        base_cfg = dict(gen_run_cfg(rng, rng.choice(pats), hardened=False), seed=seed, max_steps=6, kuniq=10 ** 9, ksat=3)
+        first = None
+        for k in range(nh + 1):
+            hist = [] if k == 0 else (gen_history(rng) or [["draw", 3]])
+            if k == 1:
+                hist = [["draw", 5]]                          # plain: some draws, then the same seed again
+            how = rng.choice(["pos", "kw", "omit"])
+            do_history(hist)
+            try:
+                st = observe_stream(seed, how)
+            except Exception as ex:
+                ctx.violation("reseed-raises", "enabling the deterministic PRNG / drawing raised",
+                              {"seed": seed, "history": hist, "exception": "%s: %s" % (type(ex).__name__, ex)})
+                break
+            do_history(hist)
+            po, cb, _ = python_run(dict(base_cfg, seedhow=how), watch=False)
+            obs = (st, po)
+            ctx.prop_case("same-seed-after-history", (seed, json.dumps(hist), how))
+            if first is None:
+                first = (obs, hist, how)
+            elif obs != first[0]:
+                what = "draw stream" if st != first[0][0] else "generate_problem run"
+                ctx.violation("same-seed-different-after-history",
+                              "use_deterministic_prng(True, seed) with the same seed twice in one process: the %s differs "
+                              "(the second time the process had used srandom before)" % what,
+                              {"seed": seed, "first_history": first[1], "first_seed_passed": first[2],
+                               "second_history": hist, "second_seed_passed": how,
+                               "first_stream": list(first[0][0]), "second_stream": list(st),
+                               "run_cfg": base_cfg, "first_run": first[0][1], "second_run": po})
+                break
+    # seed None is the seed 0 of the documentation
+    a, b = observe_stream(None, "omit"), observe_stream(0, "pos")
+    ctx.prop_case("seed-none-is-zero", 0)
+    if a != b:
+        ctx.violation("seed-none-differs-from-0", "use_deterministic_prng(True) and use_deterministic_prng(True, 0) give different streams",
+                      {"stream_none": list(a), "stream_0": list(b)})
+
+
 def search_neighbours(ctx):
     from cspuz.generator import build_neighbor_generator
     rng = ctx.rng
     cases = list(getattr(ctx, "_c19_nb", []))
     extra = 600 if (ctx.thorough or ctx.deep) else 150
-    for _ in range(extra):
+    for i in range(extra):
         spec = gen_pattern(rng, allow_bad=False)
+        if i % 10 == 9:
+            spec = ["T", [gen_large_array(rng), gen_choice_spec(rng)]] if rng.random() < 0.5 else gen_large_array(rng)
+        var = gen_variant(rng)
         errs = []
-        p = walk_problem(rng, spec, rng.randint(0, 8), errs)
+        with variant(var):
+            p = walk_problem(rng, spec, rng.randint(0, 8), errs)
+            p = None if p is None else dec_prob(p)
         if p is not None:
-            cases.append((spec, p, rng.randint(0, 10 ** 6)))
+            cases.append((spec, var, p, rng.randint(0, 10 ** 6)))
         else:
             ctx.violation("generator-raises", "the neighbour generator raised on a well-formed pattern and a problem it produced itself",
-                          {"pattern": spec, "exception": errs[:1]})
-    for (spec, p, seed) in cases:
-        p0 = copy.deepcopy(p)
-        try:
-            with time_limit(30):
-                _, gen = build_neighbor_generator(build_pattern(spec))
-                seed_prng(seed)
-                ns = list(gen(p))
-        except Exception as ex:
-            ctx.violation("generator-raises", "the neighbour generator raised on a well-formed pattern and a problem it produced itself",
-                          {"pattern": spec, "current": p0, "seed": seed, "exception": "%s: %s" % (type(ex).__name__, ex)})
-            continue
-        ctx.prop_case("neighbour-locality", (json.dumps(spec), show_prob(p0), seed))
+                          {"pattern": spec, "variant": var, "exception": errs[:1]})
+    for (spec, var, p0, seed) in cases:
+        with variant(var):
+            p = enc_problem(spec, p0)
+            praw = copy.deepcopy(p)
+            try:
+                with time_limit(30):
+                    keep = []
+                    _, gen = build_neighbor_generator(build_pattern(spec, keep))
+                    seed_prng(seed)
+                    ns = [dec_prob(q) for q in gen(p)]
+                    seed_prng(seed)
+                    ns2 = [dec_prob(q) for q in gen(p)]          # same generator object, same seed, once more
+            except Exception as ex:
+                ctx.violation("generator-raises", "the neighbour generator raised on a well-formed pattern and a problem it produced itself",
+                              {"pattern": spec, "variant": var, "current": p0, "seed": seed, "exception": "%s: %s" % (type(ex).__name__, ex)})
+                continue
+            changed = p != praw
+            argch = args_changed(keep)
+        ctx.prop_case("neighbour-locality", (json.dumps(spec), show_prob_int(p0), seed, var_key(var)))
         for q in ns:
             try:
                 n, bad = check_local(spec, p0, q)
@@ -976,10 +1677,16 @@ def search_neighbours(ctx):
             if bad:
                 ctx.violation("neighbour:" + bad[0].split(":")[0].split(" (")[0][:60].replace(" ", "-"),
                               "a neighbour differs from the current problem by more than one builder update with choice-set values",
-                              {"pattern": spec, "current": p0, "neighbour": q, "seed": seed, "complaints": bad})
-        if p != p0:
+                              {"pattern": spec, "variant": var, "current": p0, "neighbour": q, "seed": seed, "complaints": bad})
+        if ns2 != ns:
+            ctx.violation("neighbours-not-reproducible", "the same generator object, re-seeded with the same seed, produced another candidate sequence",
+                          {"pattern": spec, "variant": var, "current": p0, "seed": seed, "first": ns[:6], "second": ns2[:6]})
+        if changed:
             ctx.violation("generator-mutates-current", "the neighbour generator modified the current problem",
-                          {"pattern": spec, "current": p0, "after": p, "seed": seed})
+                          {"pattern": spec, "variant": var, "current": p0, "seed": seed})
+        if argch:
+            ctx.violation("builder-argument-mutated", "an argument handed to a builder was modified",
+                          {"pattern": spec, "variant": var, "argument": argch[0][0], "before": argch[0][1], "after": argch[0][2]})
 
 
 def search_candidates(ctx):
@@ -987,57 +1694,75 @@ def search_candidates(ctx):
     an update is a move iff use_move and it names 4 (symmetry) / 2 (no symmetry) cells."""
     rng = ctx.rng
     n = 1500 if (ctx.thorough or ctx.deep) else 400
-    for _ in range(n):
-        spec = gen_array_spec(rng, allow_bad=False)
-        if spec[8] is not None:
-            spec[8] = None
+    nl = 150 if (ctx.thorough or ctx.deep) else 40
+    for i in range(n + nl):
+        var = gen_variant(rng)
+        if i < n:
+            spec = gen_array_spec(rng, allow_bad=False)
+            if spec[8] is not None:
+                spec[8] = None
+        else:
+            spec = gen_large_array(rng)
         _, h, w, ch, d, dis, sym, mv, _ = spec
         D = dis_list(dis)
         errs = []
-        cur = walk_problem(rng, spec, rng.randint(0, 10), errs)
-        if cur is None:
-            ctx.violation("generator-raises", "the neighbour generator raised on a well-formed pattern and a problem it produced itself",
-                          {"pattern": spec, "exception": errs[:1]})
-            continue
-        b = build_pattern(spec)
-        seed = rng.randint(0, 10 ** 6)
-        seed_prng(seed)
-        cur0 = copy.deepcopy(cur)
-        try:
-            with time_limit(30):
-                cands = b.candidates(cur)
-                [b.copy_with_update(cur, u) for u in cands]
-        except Exception as ex:
-            ctx.violation("generator-raises", "candidates()/copy_with_update() raised on a grid the builder produced itself",
-                          {"builder": spec, "current": cur0, "seed": seed, "exception": "%s: %s" % (type(ex).__name__, ex)})
-            continue
-        ctx.prop_case("array-candidates", (json.dumps(spec), show_prob(cur0), seed))
+        with variant(var):
+            cur = walk_problem(rng, spec, rng.randint(0, 10), errs)
+            if cur is None:
+                ctx.violation("generator-raises", "the neighbour generator raised on a well-formed pattern and a problem it produced itself",
+                              {"pattern": spec, "variant": var, "exception": errs[:1]})
+                continue
+            keep = []
+            b = build_pattern(spec, keep)
+            seed = rng.randint(0, 10 ** 6)
+            seed_prng(seed)
+            cur0 = dec_prob(copy.deepcopy(cur))
+            try:
+                with time_limit(30):
+                    cands = b.candidates(cur)
+                    results = [dec_prob(b.copy_with_update(cur, u)) for u in cands]
+                    ucands = [dec_update(u) for u in cands]
+                    seed_prng(seed)
+                    again = [dec_update(u) for u in b.candidates(cur)]   # the same builder, the same seed, once more
+            except Exception as ex:
+                ctx.violation("generator-raises", "candidates()/copy_with_update() raised on a grid the builder produced itself",
+                              {"builder": spec, "variant": var, "current": cur0, "seed": seed, "exception": "%s: %s" % (type(ex).__name__, ex)})
+                continue
+            changed = dec_prob(cur) != cur0
+            argch = args_changed(keep)
+        ctx.prop_case("array-candidates", (json.dumps(spec), show_prob_int(cur0), seed, var_key(var)))
         D_ok = (0, 0) not in D and all((-dy, -dx) in D for dy, dx in D)
         pre_sym = nd_symmetric(cur0, h, w, d)
         pre_adj = adj_ok(cur0, h, w, d, D)
-        for u in cands:
-            q = b.copy_with_update(cur, u)
+        for u, q in zip(ucands, results):
             is_move = mv and len(u) == (4 if sym else 2)
             bad = check_grid_step(spec, cur0, q)
             if any(not (0 <= y < h and 0 <= x < w) for (y, x, _) in u):
                 bad.append("update names a cell outside the grid")
             touched = {(y, x) for (y, x, _) in u}
-            if any(cur0[y][x] != q[y][x] and (y, x) not in touched for y in range(h) for x in range(w)):
+            if not bad and any(cur0[y][x] != q[y][x] and (y, x) not in touched for y in range(h) for x in range(w)):
                 bad.append("a cell outside the update changed")
             if not is_move:
                 for (y, x, v) in u:
-                    if v not in set(ch) | {d}:
+                    if type(v) is not int or v not in set(ch) | {d}:
                         bad.append("value %r not in the choice set" % (v,))
-                if D and D_ok and pre_adj and (pre_sym or not sym) and not adj_ok(q, h, w, d, D):
+                if not bad and D and D_ok and pre_adj and (pre_sym or not sym) and not adj_ok(q, h, w, d, D):
                     bad.append("two non-default cells became adjacent")
             if bad:
                 ctx.violation("array-update:" + bad[0].split(":")[0].split(" (")[0][:60].replace(" ", "-"),
                               "an ArrayBuilder2D update breaks locality / symmetry / adjacency",
-                              {"builder": spec, "current": cur0, "update": [list(t) for t in u], "result": q,
+                              {"builder": spec, "variant": var, "current": cur0, "update": [list(t) for t in u], "result": q,
                                "seed": seed, "complaints": bad})
-        if cur != cur0:
+        if again != ucands:
+            ctx.violation("candidates-not-reproducible", "the same builder object, re-seeded with the same seed, proposed other candidates",
+                          {"builder": spec, "variant": var, "current": cur0, "seed": seed,
+                           "first": [list(map(list, u)) for u in ucands[:6]], "second": [list(map(list, u)) for u in again[:6]]})
+        if changed:
             ctx.violation("candidates-mutate-current", "candidates()/copy_with_update() modified the current problem",
-                          {"builder": spec, "current": cur0, "after": cur, "seed": seed})
+                          {"builder": spec, "variant": var, "current": cur0, "seed": seed})
+        if argch:
+            ctx.violation("builder-argument-mutated", "an argument handed to a builder was modified",
+                          {"builder": spec, "variant": var, "argument": argch[0][0], "before": argch[0][1], "after": argch[0][2]})
 
 
 def search_runs(ctx):
@@ -1049,64 +1774,84 @@ def search_runs(ctx):
         for _ in range(150):
             cfg = gen_run_cfg(ctx.rng)
             po, cb, pattern = python_run(cfg)
-            runs.append((cfg, po, cb, pattern))
-    for (cfg, po, cb, pattern) in runs:
+            po2 = None
+            if po[0] == "ok":
+                po2, cb2, _ = python_run(cfg, pattern=pattern)
+                cb.args_changed = cb.args_changed + cb2.args_changed
+            runs.append((cfg, po, cb, pattern, po2))
+    for (cfg, po, cb, pattern, po2) in runs:
         ctx.prop_case("run-sound", json.dumps(cfg))
         if po[0] != "ok":
             continue
-        r = cb.result
-        if r is not None:
-            last = cb.last
-            if last is None or last[0] is not r or last[1] is not True or last[2] is not True:
-                ctx.violation("returned-problem-not-accepted",
-                              "generate_problem returned a problem that was not the one the solver reported satisfiable and the uniqueness test accepted",
-                              {"cfg": cfg, "returned": show_prob(r), "last_solver_call": None if last is None else [show_prob(last[0]), last[1], last[2]]})
-        # every problem handed to the solver is a one-update neighbour of the problem that is current at
-        # that moment (initial problem, then whatever the last accepted move installed)
-        if has_model(cfg["pattern"]):
-            from cspuz.generator import build_neighbor_generator
-            try:
-                current = build_neighbor_generator(build_pattern(cfg["pattern"]))[0]
-            except Exception:
-                current = None
-            last = None
-            first = cfg["solve_initial"]
-            for ev in cb.events:
-                if current is None:
-                    break
-                if ev[0] == "update":
-                    if last is not None:
-                        current = last
-                    continue
-                last = ev[1]
-                if first:
-                    first = False
-                    if last != current:
-                        ctx.violation("initial-problem-not-solved-first", "solve_initial_problem=True did not hand the initial problem to the solver first",
-                                      {"cfg": cfg, "initial": current, "solved": last})
-                    continue
-                try:
-                    n, bad = check_local(cfg["pattern"], current, last)
-                except Exception as ex:
-                    n, bad = 1, ["malformed neighbour %s" % type(ex).__name__]
-                if n > 1:
-                    bad = bad + ["%d builder positions differ from the current problem" % n]
-                if bad:
-                    ctx.violation("tried-neighbour-not-local", "a problem handed to the solver is not a one-update neighbour of the current problem",
-                                  {"cfg": cfg, "current": current, "tried": last, "complaints": bad})
-                    break
-        for i, (obj, snap) in enumerate(cb.kept):
-            if obj != snap:
-                ctx.violation("earlier-problem-mutated", "a problem handed to the solver earlier was modified later in the run",
-                              {"cfg": cfg, "index": i, "at_call": snap, "now": obj})
-                break
+        with variant(cfg.get("var")):
+            search_one_run(ctx, cfg, po, cb)
+        if po2 is not None:
+            ctx.prop_case("same-seed-same-objects", json.dumps(cfg))
+            if po2 != po:
+                ctx.violation("run-not-reproducible-same-objects",
+                              "a second generate_problem over the same builder objects, same seed, in the same process gave another run",
+                              {"cfg": cfg, "first": po, "second": po2})
+        if cb.args_changed:
+            what, before, after = cb.args_changed[0]
+            ctx.violation("builder-argument-mutated", "an argument handed to a builder was modified during generate_problem",
+                          {"cfg": cfg, "argument": what, "before": before, "after": after})
     second = getattr(ctx, "_c19_second", None)
     if second:
-        for (cfg, po, _, _), so in zip(runs, second):
+        for (cfg, po, _, _, _), so in zip(runs, second):
             ctx.prop_case("same-seed-same-run", json.dumps(cfg))
             if po != so:
-                ctx.violation("run-not-reproducible", "same seed, different run in another process (other hash seed / global random state)",
+                ctx.violation("run-not-reproducible", "same seed, different run in another process (other hash seed / global random state / history)",
                               {"cfg": cfg, "first": po, "second": so})
+
+
+def search_one_run(ctx, cfg, po, cb):
+    r = cb.result
+    if r is not None:
+        last = cb.last
+        uniq_seen = not (cfg.get("gp") == "omit" and cfg["kuniq"] == 1)     # there the default uniqueness test runs, not ours
+        if last is None or last[0] is not r or last[1] is not True or (uniq_seen and last[2] is not True):
+            ctx.violation("returned-problem-not-accepted",
+                          "generate_problem returned a problem that was not the one the solver reported satisfiable and the uniqueness test accepted",
+                          {"cfg": cfg, "returned": show_prob(r), "last_solver_call": None if last is None else [show_prob(last[0]), last[1], last[2]]})
+    # every problem handed to the solver is a one-update neighbour of the problem that is current at
+    # that moment (initial problem, then whatever the last accepted move installed)
+    if has_model(cfg["pattern"]) and cb.has_events:
+        from cspuz.generator import build_neighbor_generator
+        try:
+            current = dec_prob(build_neighbor_generator(build_pattern(cfg["pattern"]))[0])
+        except Exception:
+            current = None
+        last = None
+        first = cfg["solve_initial"]
+        for ev in cb.events:
+            if current is None:
+                break
+            if ev[0] == "update":
+                if last is not None:
+                    current = last
+                continue
+            last = ev[1]
+            if first:
+                first = False
+                if last != current:
+                    ctx.violation("initial-problem-not-solved-first", "solve_initial_problem=True did not hand the initial problem to the solver first",
+                                  {"cfg": cfg, "initial": current, "solved": last})
+                continue
+            try:
+                n, bad = check_local(cfg["pattern"], current, last)
+            except Exception as ex:
+                n, bad = 1, ["malformed neighbour %s" % type(ex).__name__]
+            if n > 1:
+                bad = bad + ["%d builder positions differ from the current problem" % n]
+            if bad:
+                ctx.violation("tried-neighbour-not-local", "a problem handed to the solver is not a one-update neighbour of the current problem",
+                              {"cfg": cfg, "current": current, "tried": last, "complaints": bad})
+                break
+    for i, (obj, snap) in enumerate(cb.kept):
+        if obj != snap:
+            ctx.violation("earlier-problem-mutated", "a problem handed to the solver earlier was modified later in the run",
+                          {"cfg": cfg, "index": i, "at_call": dec_prob(snap), "now": dec_prob(obj)})
+            break
 
 
 def seg_run(spec, seed, pyseed, max_steps):
@@ -1158,7 +1903,8 @@ def search_segmentation(ctx):
 
 def search(ctx):
     errors = []
-    for part in (search_prng, search_neighbours, search_candidates, search_runs, search_segmentation):
+    for part in (search_prng, search_prng_stream, search_reseed, search_neighbours, search_candidates, search_runs,
+                 search_segmentation):
         try:
             part(ctx)
         except Exception:                      # keep searching with the other oracles, report at the end
